@@ -3960,3 +3960,27 @@ ARGS_REQUIRED = dict(
            ("inspect.Parameter.empty", "AEmpty", "ann")],
     raises=[("The given object is not a class", 29)])
 ALL += [ARGS_GET_CLASS, ARGS_CREATE_INSTANCE, ARGS_REQUIRED]
+# ---- C19, continued (lorch): the rest of nextflow/scripts/batchie.py (vocabulary: end of Model/Orchestrate.v; one Proofs file per
+# function or group: Proofs/C19Source_ValidateInitial.v, C19Source_GetArgs.v, C19Source_Paths.v).
+# validate_initial_output_dir_and_get_result_files_as_dict: handed the job directory of the initial step (a globbed plate directory,
+# as for C19_GET_SCREEN / C19_VALIDATE); the three globs, the `or` of the two emptiness tests, the three l[0] reads IN THEIR ORDER
+# (test_screen_glob[0] first: IndexError when only the test screen is missing), the `with`, which variable goes under which key of
+# the returned dict come from the translation.
+C19_VALIDATE_INITIAL = dict(
+    file="nextflow/scripts/batchie.py", out="SrcOrchInit.v", imports="Model.Orchestrate", monad=_SRES, overload=True,
+    func="validate_initial_output_dir_and_get_result_files_as_dict", name="src_validate_initial", pyparams=["output_dir"],
+    params=[("output_dir", "plate_path")], returns="opt initial_files",
+    vars={"test_screen_glob": "list spath", "training_screen_glob": "list spath", "screen_metadata": "list Z",
+          "test_screen": "spath", "training_screen": "spath", "f": "Z", "screen_metadata_obj": "Z"},
+    retype={"screen_metadata": ["Z"]},
+    contexts=[("open(screen_metadata, 'r')", "screen_metadata'", "Z")],
+    prims=[(_GLOB % "test.screen.h5", "glob_in_plate output_dir' KTest", "list spath"),
+           (_GLOB % "training.screen.h5", "glob_in_plate output_dir' KTraining", "list spath"),
+           (_GLOB % "screen_metadata.json", "glob_meta output_dir'", "list Z"),
+           _LEN0, ("__l[0]", "!shead {l}", "spath", {"l": "list spath"}), ("__l[0]", "!shead {l}", "Z", {"l": "list Z"}),
+           ("json.load(__f)", "{f}", "Z", {"f": "Z"}),
+           # the returned dict: a record with one field per key
+           ("{'test_screen': __a, 'training_screen': __b, 'screen_metadata': __c}", "mkif {a} {b} {c}", "initial_files",
+            {"a": "spath", "b": "spath", "c": "Z"})],
+)
+ALL += [C19_VALIDATE_INITIAL]
